@@ -2,6 +2,7 @@ package main
 
 import (
 	"fmt"
+	"sync"
 	"go/constant"
 	"go/token"
 	"go/types"
@@ -111,6 +112,7 @@ type Exec struct {
 	obsTerms  map[string]*Term
 	obsOrder  []string
 	witness   *Witness
+	foundLabels *sync.Map
 	wantWitness bool
 	fixed     *modelFile
 	incon     []string // inconclusive notes (unknown verdicts)
@@ -137,7 +139,7 @@ type Exec struct {
 	finfo     map[*ssa.Function]*fnInfo
 	icept     map[*ssa.Function]interceptFn
 	counters  map[string]int
-	rsGroups  []*rsGroup
+	rsWords   []*rsCodeword
 }
 
 type schedCall struct {
@@ -457,6 +459,10 @@ func (ex *Exec) violation(label, msg string, cond *Term) bool {
 	if cond == nil {
 		cond = ex.ts.True
 	}
+	if _, dup := ex.foundLabels.Load(label); dup {
+		ex.counters["skipped-after-finding"]++
+		return false
+	}
 	v := ex.check(cond, true)
 	if v == Unsat {
 		return false
@@ -467,6 +473,7 @@ func (ex *Exec) violation(label, msg string, cond *Term) bool {
 	}
 	m, arrs := ex.extractModel()
 	ex.sol.Pop()
+	ex.foundLabels.Store(label, true)
 	f := Finding{Label: label, Msg: msg, Site: ex.stack(), Model: m, Arrays: arrs, Harness: ex.harness, Kind: "ghost"}
 	f.Prefix = append([]Decision(nil), ex.trace...)
 	ex.findings = append(ex.findings, f)
@@ -477,6 +484,12 @@ func (ex *Exec) violation(label, msg string, cond *Term) bool {
 func (ex *Exec) assertTerm(label string, c *Term, kind string) {
 	if c.IsTrue() {
 		ex.asserted[label]++
+		return
+	}
+	// a label that already produced a counterexample in this run is not re-examined:
+	// one model per label is what gets replayed and reported
+	if _, dup := ex.foundLabels.Load(label); dup {
+		ex.counters["skipped-after-finding"]++
 		return
 	}
 	nc := ex.ts.BNot(c)
@@ -491,6 +504,7 @@ func (ex *Exec) assertTerm(label string, c *Term, kind string) {
 	}
 	m, arrs := ex.extractModel()
 	ex.sol.Pop()
+	ex.foundLabels.Store(label, true)
 	f := Finding{Label: label, Site: ex.stack(), Model: m, Arrays: arrs, Harness: ex.harness, Kind: kind}
 	f.Prefix = append([]Decision(nil), ex.trace...)
 	ex.findings = append(ex.findings, f)
@@ -1664,6 +1678,24 @@ func (ex *Exec) physBound(s SliceV) int {
 
 // fillRange sets s[i] = f(i) for i < len(s).
 func (ex *Exec) fillRange(s SliceV, f func(i int) Value, site ssa.Instruction) {
+	if !s.off.IsConst() {
+		// symbolic offset: walk the absolute positions of the backing array
+		for j := 0; j < len(s.arr.elems); j++ {
+			jt := ex.c64(uint64(j))
+			rel := ex.ts.Sub(jt, s.off)
+			in := ex.ts.BAnd(ex.ts.Ule(s.off, jt), ex.ts.Ult(rel, s.len))
+			if in.IsFalse() {
+				continue
+			}
+			v, ok := f(0).(*Term)
+			if !ok {
+				panic(pathEnd{kind: endUnsupported, msg: "symbolic-offset fill of aggregate elements"})
+			}
+			old := ex.arrRead(s.arr, jt).(*Term)
+			ex.arrWrite(s.arr, jt, ex.ts.Ite(in, v, old))
+		}
+		return
+	}
 	n := ex.physBound(s)
 	for i := 0; i < n; i++ {
 		idx := ex.ts.Add(s.off, ex.c64(uint64(i)))
@@ -1698,6 +1730,30 @@ func (ex *Exec) copyBuiltin(dstV, srcV Value, site ssa.Instruction) Value {
 		return ex.c64(0)
 	}
 	n := ts.Ite(ts.Ult(src.len, dst.len), src.len, dst.len)
+	if !dst.off.IsConst() {
+		if dst.arr.w < 0 {
+			panic(pathEnd{kind: endUnsupported, msg: "symbolic-offset copy of aggregate elements"})
+		}
+		// symbolic destination offset: walk absolute destination positions
+		news := make([]*Term, len(dst.arr.elems))
+		for j := range news {
+			jt := ex.c64(uint64(j))
+			rel := ts.Sub(jt, dst.off)
+			in := ts.BAnd(ts.Ule(dst.off, jt), ts.Ult(rel, n))
+			if in.IsFalse() {
+				continue
+			}
+			sv := ex.arrRead(src.arr, ts.Add(src.off, rel)).(*Term)
+			news[j] = ts.Ite(in, sv, ex.arrRead(dst.arr, jt).(*Term))
+		}
+		for j, v := range news {
+			if v != nil {
+				ex.arrWrite(dst.arr, ex.c64(uint64(j)), v)
+			}
+		}
+		ex.counters["copy-symbolic-offset"]++
+		return n
+	}
 	bound := min(ex.physBound(dst), ex.physBound(src))
 	if dst.arr.recycled || src.arr.recycled {
 		ex.violation("pool/use-after-put", "copy touching a recycled pool buffer", nil)
